@@ -705,6 +705,14 @@ func (r *Runtime) typedArrayProto_forEach(call FunctionCall) Value {
 	panic(r.NewTypeError("Method TypedArray.prototype.forEach called on incompatible receiver %s", r.objectproto_toString(FunctionCall{This: call.This})))
 }
 
+func (a *typedArrayObject) isFloatArray() bool {
+	switch a.typedArray.(type) {
+	case *float32Array, *float64Array:
+		return true
+	}
+	return false
+}
+
 func (r *Runtime) typedArrayProto_includes(call FunctionCall) Value {
 	if ta, ok := r.toObject(call.This).self.(*typedArrayObject); ok {
 		ta.viewedArrayBuf.ensureNotDetached(true)
@@ -730,6 +738,18 @@ func (r *Runtime) typedArrayProto_includes(call FunctionCall) Value {
 		if !ta.viewedArrayBuf.ensureNotDetached(false) {
 			if searchElement == _undefined && startIdx < ta.length {
 				return valueTrue
+			}
+			return valueFalse
+		}
+		if ta.isFloatArray() {
+			// SameValueZero on the element values (a float32 element is not the double it was rounded from; -0 equals +0)
+			if ta.typedArray.typeMatch(searchElement) {
+				f := searchElement.ToFloat()
+				for k := startIdx; k < ta.length; k++ {
+					if v := ta.typedArray.get(ta.offset + k).ToFloat(); v == f || (f != f && v != v) {
+						return valueTrue
+					}
+				}
 			}
 			return valueFalse
 		}
@@ -788,6 +808,15 @@ func (r *Runtime) typedArrayProto_indexOf(call FunctionCall) Value {
 				searchElement = _positiveZero
 			}
 			if !IsNaN(searchElement) && ta.typedArray.typeMatch(searchElement) {
+				if ta.isFloatArray() {
+					f := searchElement.ToFloat()
+					for k := toIntStrict(n); k < ta.length; k++ {
+						if ta.typedArray.get(ta.offset+k).ToFloat() == f {
+							return intToValue(int64(k))
+						}
+					}
+					return intToValue(-1)
+				}
 				se := ta.typedArray.toRaw(searchElement)
 				for k := toIntStrict(n); k < ta.length; k++ {
 					if ta.typedArray.getRaw(ta.offset+k) == se {
@@ -879,6 +908,15 @@ func (r *Runtime) typedArrayProto_lastIndexOf(call FunctionCall) Value {
 				searchElement = _positiveZero
 			}
 			if !IsNaN(searchElement) && ta.typedArray.typeMatch(searchElement) {
+				if ta.isFloatArray() {
+					f := searchElement.ToFloat()
+					for k := toIntStrict(fromIndex); k >= 0; k-- {
+						if ta.typedArray.get(ta.offset+k).ToFloat() == f {
+							return intToValue(int64(k))
+						}
+					}
+					return intToValue(-1)
+				}
 				se := ta.typedArray.toRaw(searchElement)
 				for k := toIntStrict(fromIndex); k >= 0; k-- {
 					if ta.typedArray.getRaw(ta.offset+k) == se {
